@@ -1,7 +1,7 @@
 """CrossHair contracts over the REAL LogRule / MinStepGenerator configuration logic
 (all n >= 1, order >= 1: no upper bound).  Each function returns the truth of the claim."""
 import sys
-sys.path.insert(0, '/repo/src')
+sys.path.insert(0, __import__('os').environ.get('VERIF_REPO_SRC', '/repo/src'))
 from numdifftools.finite_difference import LogRule  # noqa: E402
 from numdifftools.step_generators import MinStepGenerator, _STATE  # noqa: E402
 
